@@ -107,6 +107,12 @@ def tester_states(g, c_sys, sysname, how):
     d = c_sys.dim
     B = basis_stack(c_sys)
     base = "qubit" if sysname in ("qubit", "2qubit") else "qutrit"
+    if how == "derived":
+        # physical testers obtained with the library's own arithmetic (noisy preparations `0.9·ρ + 0.1·origin`): such
+        # objects carry is_physicality_required=False although they are physical
+        sts = generate_tester_states(c_sys, TYPICAL[base]["states"] if sysname != "2qubit" else ["x0", "y0", "z0", "z1"])
+        mixed = [0.9 * s_ + 0.1 * s_.generate_origin_obj() for s_ in sts]
+        return mixed, [0.9 * s_.to_density_matrix() + 0.1 * np.eye(d) / d for s_ in sts]
     if how.startswith("typical"):
         names = TYPICAL[base]["states_over" if how.endswith("over") else "states"]
         if sysname == "2qubit" and how.endswith("over"):
@@ -127,6 +133,10 @@ def tester_povms(g, c_sys, sysname, how, counts=None):
     if how == "typical":
         pv = generate_tester_povms(c_sys, TYPICAL[base]["povms"])
         return pv, [[np.array(m) for m in p.matrices()] for p in pv]
+    if how == "derived":
+        pv = generate_tester_povms(c_sys, TYPICAL[base]["povms"])
+        mixed = [0.9 * p + 0.1 * p.generate_origin_obj() for p in pv]
+        return mixed, [[0.9 * np.array(m) + 0.1 * np.eye(d) / len(p.vecs) for m in p.matrices()] for p in pv]
     if counts is None:
         if how == "mixed":
             counts = {2: [2, 2, 3, 2], 3: [3, 2, 4, 3, 3, 2, 3, 4], 4: [4, 2, 3, 4, 5, 4, 4, 6, 3]}[d]
